@@ -704,6 +704,139 @@ Proof.
     + rewrite hd0_cons. cbn [Z.eqb Pos.eqb skipn andb]. reflexivity.
     + replace (hd0 rest =? 83) with false by lia. cbn [andb]. reflexivity.
 Qed.
+
+(* ---- colours and MIDI: hexadecimal bytes --------------------------------------------- *)
+Lemma hexdig_facts d : 0 <= d < 16 ->
+  isxdigit (hexdig d) = true /\ digval (hexdig d) = d /\ hexdig d <> 120 /\ hexdig d <> 88 /\
+  isspace (hexdig d) = false /\ hexdig d <> 45 /\ hexdig d <> 43 /\ hexdig d <> 46.
+Proof.
+  intros H. unfold hexdig, isxdigit, digval, isdigit, isspace, in_range.
+  destruct (d <? 10) eqn:E.
+  - replace ((48 <=? 48 + d) && (48 + d <=? 57)) with true by lia. cbn [orb]. repeat split; lia.
+  - replace ((48 <=? 87 + d) && (87 + d <=? 57)) with false by lia.
+    replace ((97 <=? 87 + d) && (87 + d <=? 102)) with true by lia. cbn [orb]. repeat split; lia.
+Qed.
+
+Lemma read_hex2 b s a : 0 <= b < 256 ->
+  read_digs isxdigit 16 (hex2 b ++ s) a = read_digs isxdigit 16 s (a * 256 + b).
+Proof.
+  intros Hb. unfold hex2. cbn [app read_digs].
+  assert (H1 : 0 <= b / 16 mod 16 < 16) by (apply Z.mod_pos_bound; lia).
+  assert (H2 : 0 <= b mod 16 < 16) by (apply Z.mod_pos_bound; lia).
+  destruct (hexdig_facts _ H1) as (X1 & V1 & _). destruct (hexdig_facts _ H2) as (X2 & V2 & _).
+  rewrite X1, X2, V1, V2. f_equal.
+  pose proof (Z.div_mod b 16 ltac:(lia)). rewrite (Z.mod_small (b / 16) 16) by (split; [apply Z.div_pos; lia|apply Z.div_lt_upper_bound; lia]). lia.
+Qed.
+
+Lemma read_digs_stop s a : isxdigit (hd0 s) = false -> read_digs isxdigit 16 s a = (a, s).
+Proof. destruct s as [|c r]; [reflexivity|]. unfold hd0, at_. cbn. intros ->. reflexivity. Qed.
+
+(* sscanf %x on two printed hex digits followed by a non-hex character *)
+Lemma sc_x_hex2 b s : 0 <= b < 256 -> isxdigit (hd0 s) = false -> sc_x (hex2 b ++ s) = Some (b, s).
+Proof.
+  intros Hb Hs. unfold sc_x.
+  assert (H1 : 0 <= b / 16 mod 16 < 16) by (apply Z.mod_pos_bound; lia).
+  assert (H2 : 0 <= b mod 16 < 16) by (apply Z.mod_pos_bound; lia).
+  destruct (hexdig_facts _ H1) as (X1 & V1 & N1 & N1' & S1 & M1 & P1 & _).
+  destruct (hexdig_facts _ H2) as (X2 & V2 & N2 & N2' & _).
+  rewrite skip_ws_nonspace by (unfold hex2; cbn [app]; now rewrite hd0_cons).
+  unfold hex2 at 1. cbn [app]. rewrite sc_sign_other by assumption.
+  replace ((hexdig (b mod 16) =? 120) || (hexdig (b mod 16) =? 88)) with false by lia.
+  rewrite andb_false_r. cbn [andb]. rewrite hd0_cons, X1.
+  change (hexdig (b / 16 mod 16) :: hexdig (b mod 16) :: s) with (hex2 b ++ s).
+  rewrite read_hex2 by assumption. rewrite read_digs_stop by assumption. cbn [sgn].
+  replace (0 * 256 + b) with b by lia. reflexivity.
+Qed.
+
+Definition good_rgba (v : Z) : Prop := 0 <= v < 2 ^ 32.
+Definition good_midi (a b c d : Z) : Prop := 0 <= a < 256 /\ 0 <= b < 256 /\ 0 <= c < 256 /\ 0 <= d < 256.
+
+Lemma rest_not_xdigit rest : rest_ok0 rest -> isxdigit (hd0 rest) = false.
+Proof. intros H. pose proof (rest_ok_hd _ H). unfold isxdigit, isdigit, in_range. lia. Qed.
+
+Lemma hex2_xdigits b : 0 <= b < 256 -> forallb isxdigit (hex2 b) = true.
+Proof.
+  intros Hb. unfold hex2. cbn [forallb].
+  assert (H1 : 0 <= b / 16 mod 16 < 16) by (apply Z.mod_pos_bound; lia).
+  assert (H2 : 0 <= b mod 16 < 16) by (apply Z.mod_pos_bound; lia).
+  now rewrite (proj1 (hexdig_facts _ H1)), (proj1 (hexdig_facts _ H2)).
+Qed.
+
+Lemma tok_rgba v : good_rgba v -> tok_core (VR v) (print_rgba v).
+Proof.
+  intros Hv rest Hr. unfold good_rgba in Hv.
+  set (b3 := v / 2 ^ 24 mod 256). set (b2 := v / 2 ^ 16 mod 256).
+  set (b1 := v / 2 ^ 8 mod 256). set (b0 := v mod 256).
+  assert (B3 : 0 <= b3 < 256) by (apply Z.mod_pos_bound; lia).
+  assert (B2 : 0 <= b2 < 256) by (apply Z.mod_pos_bound; lia).
+  assert (B1 : 0 <= b1 < 256) by (apply Z.mod_pos_bound; lia).
+  assert (B0 : 0 <= b0 < 256) by (apply Z.mod_pos_bound; lia).
+  assert (Hval : ((b3 * 256 + b2) * 256 + b1) * 256 + b0 = v).
+  { unfold b3, b2, b1, b0. change (2 ^ 24) with 16777216. change (2 ^ 16) with 65536. change (2 ^ 8) with 256.
+    change (2 ^ 32) with 4294967296 in Hv. Zify.zify. Z.div_mod_to_equations. lia. }
+  assert (E : print_rgba v ++ rest = 35 :: (hex2 b3 ++ hex2 b2 ++ hex2 b1 ++ hex2 b0) ++ rest)
+    by (unfold print_rgba; cbn [app]; now rewrite <- !app_assoc).
+  rewrite E.
+  assert (Hf8 : firstn 8 ((hex2 b3 ++ hex2 b2 ++ hex2 b1 ++ hex2 b0) ++ rest) = hex2 b3 ++ hex2 b2 ++ hex2 b1 ++ hex2 b0)
+    by reflexivity.
+  assert (Hs9 : skipn 9 (35 :: (hex2 b3 ++ hex2 b2 ++ hex2 b1 ++ hex2 b0) ++ rest) = rest) by reflexivity.
+  split; intros.
+  - unfold skip_core. cbn [first_class Z.eqb Pos.eqb orb]. rewrite Hs9.
+    change (skipn 1 (35 :: (hex2 b3 ++ hex2 b2 ++ hex2 b1 ++ hex2 b0) ++ rest))
+      with ((hex2 b3 ++ hex2 b2 ++ hex2 b1 ++ hex2 b0) ++ rest). rewrite Hf8.
+    rewrite !forallb_app, !hex2_xdigits by assumption. cbn [andb length app Nat.eqb hex2]. reflexivity.
+  - unfold scan_core. cbn [first_class Z.eqb Pos.eqb orb]. rewrite Hs9.
+    change (skipn 1 (35 :: (hex2 b3 ++ hex2 b2 ++ hex2 b1 ++ hex2 b0) ++ rest))
+      with ((hex2 b3 ++ hex2 b2 ++ hex2 b1 ++ hex2 b0) ++ rest).
+    rewrite <- !app_assoc. unfold sc_x.
+    assert (H1 : 0 <= b3 / 16 mod 16 < 16) by (apply Z.mod_pos_bound; lia).
+    assert (H2 : 0 <= b3 mod 16 < 16) by (apply Z.mod_pos_bound; lia).
+    destruct (hexdig_facts _ H1) as (X1 & V1 & N1 & N1' & S1 & M1 & P1 & _).
+    destruct (hexdig_facts _ H2) as (X2 & V2 & N2 & N2' & _).
+    rewrite skip_ws_nonspace by (unfold hex2; cbn [app]; now rewrite hd0_cons).
+    unfold hex2 at 1. cbn [app]. rewrite sc_sign_other by assumption.
+    replace ((hexdig (b3 mod 16) =? 120) || (hexdig (b3 mod 16) =? 88)) with false by lia.
+    rewrite andb_false_r. cbn [andb]. rewrite hd0_cons, X1.
+    change (hexdig (b3 / 16 mod 16) :: hexdig (b3 mod 16) :: hex2 b2 ++ hex2 b1 ++ hex2 b0 ++ rest)
+      with (hex2 b3 ++ hex2 b2 ++ hex2 b1 ++ hex2 b0 ++ rest).
+    rewrite !read_hex2 by assumption. rewrite read_digs_stop by now apply rest_not_xdigit.
+    cbn [sgn]. replace (((0 * 256 + b3) * 256 + b2) * 256 + b1) with ((b3 * 256 + b2) * 256 + b1) by lia.
+    rewrite Hval. rewrite Z.mod_small by lia. reflexivity.
+Qed.
+
+Lemma midi_step m s vals f : 0 <= m < 256 -> isxdigit (hd0 s) = false ->
+  run_fmt (DLit 48 :: DLit 120 :: Dx :: f) (48 :: 120 :: hex2 m ++ s) vals = run_fmt f s (m :: vals).
+Proof.
+  intros Hm Hs. cbn [run_fmt lit]. rewrite !Z.eqb_refl. cbn [run_fmt lit]. rewrite !Z.eqb_refl. now rewrite sc_x_hex2.
+Qed.
+
+Lemma run_midi a b c d rest : good_midi a b c d ->
+  run_fmt fmt_midi (print_midi a b c d ++ rest) [] = Some ([a; b; c; d], rest).
+Proof.
+  intros (Ha & Hb & Hc & Hd). unfold fmt_midi, print_midi, kw_MIDI, lits. cbn [map app].
+  repeat (rewrite <- app_assoc; cbn [app]).
+  cbn [run_fmt lit]. rewrite !Z.eqb_refl.
+  cbn [run_fmt skip_ws dropwhile isspace in_range Z.leb Z.eqb Z.compare Pos.compare Pos.compare_cont Pos.eqb andb orb lit].
+  do 4 (rewrite sc_x_hex2 by (try assumption; reflexivity);
+        cbn [skip_ws dropwhile isspace in_range Z.leb Z.eqb Z.compare Pos.compare Pos.compare_cont Pos.eqb andb orb lit]).
+  cbn [rev app]. reflexivity.
+Qed.
+
+Lemma tok_midi a b c d : good_midi a b c d -> tok_core (VM a b c d) (print_midi a b c d).
+Proof.
+  intros Hg rest Hr. pose proof (run_midi a b c d rest Hg) as Hrun.
+  assert (Hst : is_midi_start (print_midi a b c d ++ rest) = true) by reflexivity.
+  assert (Hc0 : exists r0, print_midi a b c d ++ rest = 77 :: r0) by (eexists; reflexivity).
+  destruct Hc0 as [r0 E0].
+  assert (Hlen : Nat.eqb (length rest) (length (print_midi a b c d ++ rest)) = false).
+  { apply Nat.eqb_neq. rewrite app_length. unfold print_midi. rewrite !app_length. cbn [length]. lia. }
+  destruct Hg as (Ha & Hb & Hc & Hd).
+  split; intros.
+  - unfold skip_core. rewrite E0 at 1. cbn [first_class Z.eqb Pos.eqb orb]. rewrite Hst.
+    unfold skip_fmt_null. rewrite Hrun, Hlen. reflexivity.
+  - unfold scan_core. rewrite E0 at 1. cbn [first_class Z.eqb Pos.eqb orb]. rewrite Hst, Hrun.
+    rewrite !Z.mod_small by lia. reflexivity.
+Qed.
 End Tokens.
 
 (* ------------------------------------------------------------------------- *)
@@ -832,6 +965,10 @@ Hypothesis Hoff : compress o = false.
 Lemma conv_off args size : convert_to_range o args size = CNo.
 Proof. unfold convert_to_range. rewrite Hoff. cbn [negb]. now rewrite !orb_true_r. Qed.
 
+Lemma print_arg_val_top_scalar v rest cols prev b :
+  scalar v -> print_arg_val_top o (v :: rest) cols prev b = print_arg_val o (v :: rest) cols prev.
+Proof. destruct v; cbn [scalar]; try tauto; intros _; reflexivity. Qed.
+
 Lemma print_arg_val_scalar v rest cols prev :
   scalar v ->
   print_arg_val o (v :: rest) cols prev =
@@ -865,7 +1002,8 @@ Proof.
   - destruct fuel; [discriminate|]. cbn [print_vals_loop] in Hrun. cbn [length] in Hn.
     replace (n <=? i) with false in Hrun by lia.
     pose proof (Forall_inv HP) as Hv. pose proof (Forall_inv_tail HP) as HP'.
-    rewrite conv_off, (print_arg_val_scalar v rest cols prev (HPs v Hv)) in Hrun.
+    rewrite conv_off, (print_arg_val_top_scalar v rest cols prev pend (HPs v Hv)),
+      (print_arg_val_scalar v rest cols prev (HPs v Hv)) in Hrun.
     destruct (print_scalar o v cols) as [[[t tmp] cols1]|] eqn:Eps; [|discriminate].
     rewrite ?orb_false_r in Hrun.
     destruct (Htok _ _ _ _ _ Hv Eps) as [Htk ->].
@@ -940,6 +1078,8 @@ Definition good_val (v : av) : Prop :=
   | VC c => good_char c
   | VS s => nonul s
   | VSym s => nonul s /\ sym_plain s = false     (* symbols that need quotes *)
+  | VM a b c d => good_midi a b c d
+  | VR v => good_rgba v
   | _ => False
   end.
 
@@ -986,6 +1126,10 @@ Proof.
     + replace body with (fst (print_chars false (linelength o) s (cols + 1))) by now rewrite Eb.
       exact (tok_core_reads _ _ _ _ (tok_quoted dec2f dec2d true _ _ _ Hn)).
     + eexists _, _. split; [reflexivity|]. unfold first_ok, isspace, in_range. lia.
+  - split; [|reflexivity]. split; [now apply tok_core_reads, tok_midi|]. split; [|exact I].
+    eexists _, _. split; [reflexivity|]. apply first_ok_alpha. lia.
+  - split; [|reflexivity]. split; [now apply tok_core_reads, tok_rgba|]. split; [|exact I].
+    eexists _, _. split; [reflexivity|]. unfold first_ok, isspace, in_range. lia.
 Qed.
 
 Lemma count_lang vs T : lang dec2f dec2d vs T ->
@@ -1136,7 +1280,7 @@ Proof.
     replace (n <=? i) with false by lia.
     pose proof (Forall_inv Hg) as Hv. pose proof (Forall_inv_tail Hg) as Hg'.
     assert (Hsc : scalar v) by (destruct v; cbn in Hv; try contradiction; exact I).
-    rewrite (conv_off o Hoff), (print_arg_val_scalar o v rest cols prev Hsc).
+    rewrite (conv_off o Hoff), (print_arg_val_top_scalar o v rest cols prev pend Hsc), (print_arg_val_scalar o v rest cols prev Hsc).
     destruct (print_scalar_some o v cols Hv) as (t & tmp & cols1 & E). rewrite E.
     rewrite (next_arg_offset_scalar v rest Hsc). change (skipz 1 (v :: rest)) with rest.
     destruct (if breaks_itself (av_type v) then (false, cols1, awtl)
